@@ -63,16 +63,19 @@ def run_case(darsia, rng, tid, c):
     calls = {"n": 0}
     state = {"in_solve": False, "flat": None}
     orig_ls, orig_l1, orig_solve = w1.linear_solve, w1.l1_dissipation, w1._solve
-    fault_call = None if c["fault"] is None else c["fault"] + 1   # call 0 = initial Darcy solve
+    post_fault = c["fault"] == "post"      # fail the step after the loop (Bregman: pressure recovery) instead of an iteration
 
     in_loop_kw = c["method"] == "bregman"   # Bregman's in-loop solves pass reuse_solver=..., the final pressure solve does not
 
     def ls(*a, **k):
         i = calls["n"]
         calls["n"] += 1
+        if i > 0 and in_loop_kw and "reuse_solver" not in k and post_fault:
+            calls["post_injected"] = True
+            raise InjectedFault("injected failure of the linear solve after the loop (pressure recovery)")
         if i > 0 and (not in_loop_kw or "reuse_solver" in k):
             calls["loop"] = calls.get("loop", 0) + 1
-            if c["fault"] is not None and calls["loop"] - 1 == c["fault"]:
+            if c["fault"] is not None and not post_fault and calls["loop"] - 1 == c["fault"]:
                 calls["injected"] = True
                 raise InjectedFault(f"injected failure of the inner solve of iteration {c['fault']}")
         out = orig_ls(*a, **k)
@@ -106,12 +109,14 @@ def run_case(darsia, rng, tid, c):
     ev = []
     raised, err = 0, None
     caught = []
+    post_failed = False
     try:
         with warnings.catch_warnings(record=True) as wl:
             warnings.simplefilter("always")
             with np.errstate(all="ignore"):
                 dist, info = w1(img1, img2)
             caught = [str(x.message) for x in wl if "abruptly stopped" in str(x.message)]
+            post_failed = any("pressure recovery failed" in str(x.message) for x in wl)
     except Exception as ex:  # noqa
         raised, err = 1, repr(ex)[:200]
 
@@ -145,6 +150,8 @@ def run_case(darsia, rng, tid, c):
         ev.append(dict(base, op="iter", i=k, mbexp=mb(versions[k + 1]), linexp=lin(), last=int(k == ncompleted - 1 and not faulted), critmet=int(critmet)))
     if faulted:
         ev.append(dict(base, op="fault", i=ncompleted, internal=int(internal)))
+    if post_failed or calls.get("post_injected"):
+        ev.append(dict(base, op="postfault", internal=int(not calls.get("post_injected", False))))
     # which version does the returned flux equal?
     retver = -1
     for k in range(len(versions) - 1, -1, -1):
@@ -177,7 +184,9 @@ def configs(rng, quick, terminals):
     mobs = ["CELL_BASED", "CELL_BASED_ARITHMETIC", "CELL_BASED_HARMONIC", "SUBCELL_BASED", "FACE_BASED"]
     solvers = [("full", "direct"), ("flux_reduced", "direct"), ("pressure", "direct"), ("pressure", "amg"), ("pressure", "cg"), ("flux_reduced", "amg")]
     out = []
-    faults = sorted({f for (_, f, _) in terminals if f is not None})
+    faults = sorted({t[1] for t in terminals if t[1] is not None})
+    if not any(t[3] for t in terminals):
+        raise MachineryError("SolverLoop emitted no terminal state with a failed post-loop step")
     n = 28 if quick else 1100
     for i in range(n):
         shape, h = rng.choice(shapes)
@@ -196,7 +205,7 @@ def configs(rng, quick, terminals):
             opts["linear_solver_options"] = {"atol": 1e-13, "rtol": 1e-13, "maxiter": 600}
         if rng.random() < 0.3:
             opts["aa_depth"] = 3
-        fault = rng.choice([None] + [f for f in faults if f is not None and f >= 0 and f < num_iter])
+        fault = rng.choice([None] + [f for f in faults if f is not None and f >= 0 and f < num_iter] + (["post", "post"] if method == "bregman" else []))
         out.append({"shape": list(shape), "h": h, "method": method, "l1": rng.choice(l1s), "mob": rng.choice(mobs), "opts": opts,
                     "mass": rng.choice(["dense", "compact", "single"]), "mseed": rng.randrange(10 ** 6), "fault": fault,
                     "adaptive": method == "bregman" and rng.random() < 0.3, "weight": rng.choice([None, None, 2.0])})
@@ -207,6 +216,16 @@ def configs(rng, quick, terminals):
                         "opts": {"num_iter": 6, "formulation": "pressure", "linear_solver": "direct", "L": 1.0 if method == "bregman" else 1e-2,
                                  "tol_residual": 0.0, "tol_increment": 0.0, "tol_distance": 0.0},
                         "mass": "dense", "mseed": 7, "fault": f, "adaptive": False, "weight": None})
+    # the step after the loop (Bregman's pressure recovery) fails, after the stopping criteria were met or not
+    for adaptive in (False, True):
+        for aa in (0, 3):
+            for tol in ("moderate", "never"):
+                opts = {"num_iter": 8, "formulation": "pressure", "linear_solver": "direct", "L": 1.0}
+                opts.update(dict(tol_residual=1e-6, tol_increment=1e-1, tol_distance=1e-1) if tol == "moderate" else dict(tol_residual=0.0, tol_increment=0.0, tol_distance=0.0))
+                if aa:
+                    opts["aa_depth"] = aa
+                out.append({"shape": [4, 3], "h": [0.5, 0.25], "method": "bregman", "l1": rng.choice(l1s), "mob": rng.choice(mobs), "opts": opts,
+                            "mass": "dense", "mseed": rng.randrange(10 ** 6), "fault": "post", "adaptive": adaptive, "weight": None})
     # stagnation: on a one-cell-thin grid the flux is unique, so the iteration reaches its fixed point after one step; with
     # the stopping criteria switched off Anderson acceleration then sees increments that differ by round-off only
     # (fixed a16df87: the degenerate least-squares mix perturbed the flux by O(1))
@@ -232,10 +251,13 @@ def configs(rng, quick, terminals):
 def run(ck, replay=None):
     ck.sany("SolverLoop", "Trace_SolverLoop")
     r = ck.model_check("SolverLoop", "SolverLoop_fixed.cfg", workers=1)
-    terminals = [(p[1], None if p[2] == -1 else p[2], p[3]) for p in r.printed("SCN")]
+    terminals = [(p[1], None if p[2] == -1 else p[2], p[3], p[4]) for p in r.printed("SCN")]
     reg = ck.tlc("SolverLoop", "SolverLoop_asbuilt.cfg", workers=1, expect_ok=False, label="regression-model")
     if not reg.violated:
         raise MachineryError("SolverLoop no longer rejects the pre-fix status rule (vacuity guard)")
+    reg2 = ck.tlc("SolverLoop", "SolverLoop_postignored.cfg", workers=1, expect_ok=False, label="regression-model")
+    if not reg2.violated:
+        raise MachineryError("SolverLoop no longer rejects a status that ignores a failed post-loop step (vacuity guard)")
     darsia = import_darsia()
     rng = random.Random(ck.seed)
     quick = ck.tier == "quick"
@@ -249,7 +271,7 @@ def run(ck, replay=None):
     for b in bad:
         c = info[b["tid"]]
         e = b["event"]
-        fpos = "nofault" if c["fault"] is None else ("fault@0" if c["fault"] == 0 else "fault@k")
+        fpos = "nofault" if c["fault"] is None else ("fault@0" if c["fault"] == 0 else ("fault@post" if c["fault"] == "post" else "fault@k"))
         if any(x.get("internal") for x in events if x["tid"] == b["tid"] and x["op"] == "fault"):
             fpos = "internalfault"
         sig = f"C04:{b['clause']}:{c['method']}:{fpos}"
